@@ -215,8 +215,7 @@ def check(ctx):
         info = []
         for t, cond in rev:
             e = edge(t)
-            pols = [(a, p) for a, p in cond if a[0] == "bool" or a[0] == "cmp"
-                    or (a[0] == "call" and fn_name(a[1]) == "isinstance")]
+            pols = [(a, p) for a, p in cond if a[0] != "inloop"]
             info.append((e, pols))
         try:
             node_t = ("iter", n("nodes"))
@@ -224,7 +223,9 @@ def check(ctx):
             guard = ("bool", "and", (("call", ("n", "isinstance"),
                                       (node_t, ("g", "liesel.model.nodes.Dist")), ()),
                                      cmp_("is", inp_t, ("a", node_t, "at"))))
-            rev_e = [e for e, pols in info if (guard, True) in pols]
+            from ..core.terms import pcs
+            g_true = set(pcs(guard, True))
+            rev_e = [e for e, pols in info if g_true <= set(pols)]
             fwd_e = [e for e, pols in info if (guard, False) in pols]
             ok_g = rev_e == [(node_t, inp_t)] and fwd_e == [(inp_t, node_t)]
             detail = f"reversed {[short(('tuple', e)) for e in rev_e]} if {short(guard)} " \
